@@ -34,6 +34,7 @@ def run(ctx):
     ctx.guard(rule_e, ctx, ix)
     ctx.guard(rule_f, ctx, ix)
     ctx.guard(rule_g, ctx, ix)
+    ctx.guard(rule_h, ctx, ix)
 
 
 def rule_a(ctx, ix):
@@ -628,3 +629,44 @@ def rule_g(ctx, ix):
     n = common.check_element_order(ctx, R, ix, [HELPERS], what='the transformed values are put back with a C-order reshape')
     if n < 2:
         raise AnalysisError('C15.g: only %d flatten / reshape calls in %s' % (n, HELPERS))
+
+
+def rule_h(ctx, ix):
+    """dependent_axes is the transitive closure of the coupling between pixel and world axes, computed by iterating two masks.
+    The iteration may stop only at a fixed point of *both* masks: a pixel axis added in the last round can still bring in a world axis."""
+    from .. import cond
+    R = 'C15.h'
+    ctx.describe(R, 'the closure loop behind dependent_axes stops only when neither mask grew', floor=2)
+    f = ix.func('glue.core.coordinate_helpers._coupled_axes')
+    loops = [w for w in walk_no_nested(f.node) if isinstance(w, ast.While)]
+    if len(loops) != 1:
+        raise AnalysisError('_coupled_axes: expected one closure loop')
+    lp = loops[0]
+    carried = {}
+    for st in lp.body:
+        if isinstance(st, ast.Assign) and isinstance(st.targets[0], ast.Tuple) and isinstance(st.value, ast.Tuple):
+            for t, v in zip(st.targets[0].elts, st.value.elts):
+                if isinstance(t, ast.Name) and isinstance(v, ast.Name):
+                    carried[t.id] = v.id
+        elif isinstance(st, ast.Assign) and isinstance(st.targets[0], ast.Name) and isinstance(st.value, ast.Name):
+            carried[st.targets[0].id] = st.value.id
+    if len(carried) < 2:
+        raise AnalysisError('_coupled_axes: the loop-carried masks are no longer recognised (%s)' % carried)
+    exits = [x for x in ast.walk(lp) if isinstance(x, (ast.Return, ast.Break))]
+    if not exits and isinstance(lp.test, ast.Constant):
+        raise AnalysisError('_coupled_axes: the loop has no exit')
+    for ex in exits:
+        pc = cond.path_condition(f.node, ex, expand=False) or ('const', True)
+        txt = ' '.join(sorted(cond.atoms(pc)))
+        for old_, new_ in sorted(carried.items()):
+            # the atom must mention both the carried mask and its new value
+            ok = any(_mentions(a, old_) and _mentions(a, new_) for a in cond.atoms(pc))
+            ctx.ob(R, '%s exit `%s` / %s' % (f.construct, norm(ex)[:40], old_), 'the exit compares %s with %s' % (new_, old_), ok,
+                   detail='_coupled_axes leaves its closure loop under `%s`, which does not compare `%s` with `%s`: the loop can stop in a round '
+                          'in which that mask still grew, so axes coupled through a chain (a triangular matrix) are left out of '
+                          'dependent_axes and the coordinate links ignore an axis they depend on' % (txt[:160], new_, old_), where=where(f, ex))
+
+
+def _mentions(atom, name):
+    import re
+    return re.search(r'(?<![A-Za-z0-9_])%s(?![A-Za-z0-9_])' % re.escape(name), atom) is not None
